@@ -200,6 +200,10 @@ def ops_of(case, out):
         k, ok = kv.split(":")
         ops.append({"t": 90, "code": 1, "k": int(k), "v": 100 + int(k), "inv": pos, "res": pos + 1, "r": (int(ok), 0, 0)})
         pos += 2
+    for kv in out["mon"].get("preerase", []):
+        k, ok = kv.split(":")
+        ops.append({"t": 90, "code": 6, "k": int(k), "v": 0, "inv": pos, "res": pos + 1, "r": (int(ok), 0, 0)})
+        pos += 2
     cur = {}
     for (t, kind, a, b, c) in out["events"]:
         if kind == "inv":
